@@ -312,24 +312,27 @@ Definition setup_task (st : setup_stage) (e : exc) : outcome :=
 
 (* ---------- UDP ---------- *)
 Inductive upos := UBefore | UAfter | UThrownParse | UThrownTimeout | USecondYield | UDelay (d : delay)
-  | UBurstBefore | UBurstAfter | UBurstQueued.   (* three datagrams of the address arrive in a burst; each handler generator fails
+  | UBurstBefore | UBurstAfter | UBurstQueued | UCrashFirst | UCrashLater.   (* three datagrams of the address arrive in a burst; each handler generator fails
                                       before its first yield / right after its request, without awaiting;
                                       UBurstQueued: four datagrams, the first generator awaits before failing (the
-                                      three others are queued behind it) and those fail without awaiting *)
+                                      three others are queued behind it) and those fail without awaiting;
+                                      UCrashFirst / UCrashLater: protocol.build_packet_from_datagram() itself crashes (not a
+                                      parse error) on the first datagram of a handler run / on a later one *)
 Definition all_upos : list upos :=
-  [UBefore; UAfter; UThrownParse; UThrownTimeout; USecondYield; UBurstBefore; UBurstAfter; UBurstQueued] ++ map UDelay all_delays.
+  [UBefore; UAfter; UThrownParse; UThrownTimeout; USecondYield; UBurstBefore; UBurstAfter; UBurstQueued; UCrashFirst; UCrashLater] ++ map UDelay all_delays.
 Definition upos_code (p : upos) : Z :=
   match p with UBefore => 0 | UAfter => 1 | UThrownParse => 2 | UThrownTimeout => 3 | USecondYield => 4
-          | UDelay d => 20 + delay_code d | UBurstBefore => 5 | UBurstAfter => 6 | UBurstQueued => 7 end.
+          | UDelay d => 20 + delay_code d | UBurstBefore => 5 | UBurstAfter => 6 | UBurstQueued => 7 | UCrashFirst => 8 | UCrashLater => 9 end.
 Definition upos_of_code (z : Z) : option upos :=
   match z with 0 => Some UBefore | 1 => Some UAfter | 2 => Some UThrownParse | 3 => Some UThrownTimeout
-          | 4 => Some USecondYield | 5 => Some UBurstBefore | 6 => Some UBurstAfter | 7 => Some UBurstQueued
+          | 4 => Some USecondYield | 5 => Some UBurstBefore | 6 => Some UBurstAfter | 7 => Some UBurstQueued | 8 => Some UCrashFirst | 9 => Some UCrashLater
           | _ => match delay_of_code (z - 20) with Some d => Some (UDelay d) | None => None end end.
 Definition upos_hooks (p : upos) : list Z :=
   match p with
   | UBefore => [2] | UAfter => [2; 3] | UThrownParse | UThrownTimeout => [2; 3; 5] | USecondYield => [2; 3; 3]
   | UDelay d => match delay_error d with None => [2; 3; 3] | Some _ => [2; 3; 5] end
   | UBurstBefore => [2; 2; 2] | UBurstAfter => [2; 3; 2; 3; 2; 3] | UBurstQueued => [2; 3; 2; 3; 2; 3; 2; 3]
+  | UCrashFirst => [2; 5] | UCrashLater => [2; 3; 5]
   end.
 
 Inductive cstate := CNone | CRunning.
@@ -376,6 +379,19 @@ Definition udp_client_task (p : upos) (e : exc) : uoutcome :=
                   u_fresh := false; u_hooks := [2; 3]; u_logs := [] |}
       | None => udp_client_task_main p e
       end
+  | UCrashFirst =>
+      (* the first datagram of a run is parsed right after the generator's first step, outside the loop's try: only what
+         __parse_datagram itself turns into a ThrowAction reaches the handler ([udp_first_parse_protected]) *)
+      if udp_first_parse_protected then udp_client_task_main p e
+      else {| u_raises := Some (Naked KGeneric);
+              u_state := if udp_done_in_finally && udp_done_marks_first then CNone else CRunning;
+              u_fresh := false; u_hooks := [2]; u_logs := [] |}
+  | UCrashLater =>
+      (* later datagrams are parsed inside the same try as "arm the delay, pop" *)
+      if leaf_matches udp_wait_clauses KGeneric then udp_client_task_main p e
+      else {| u_raises := Some (Naked KGeneric);
+              u_state := if udp_done_in_finally && udp_done_marks_first then CNone else CRunning;
+              u_fresh := false; u_hooks := [2; 3]; u_logs := [] |}
   | _ => udp_client_task_main p e
   end.
 
